@@ -32,7 +32,7 @@ def regen_table(run):
 def failing_lemmas(log):
     """Map 'File "./proofs/X.v", line N' in a failed build to the enclosing lemma names."""
     names = []
-    for m in re.finditer(r'File "\./([\w/]+\.v)", line (\d+)', log):
+    for m in re.finditer(r'File "\./([\w/]+\.v)", line (\d+), characters [\d-]+:\nError', log):
         f, line = m.group(1), int(m.group(2))
         p = os.path.join(C.COQ, f)
         if not os.path.exists(p):
@@ -46,14 +46,17 @@ def failing_lemmas(log):
     return sorted(set(names))
 
 
+BATCH_TIMEOUT = [100]
+
+
 def run_batch(mode, n, seed, shard, extra=()):
     """Run the harness for one shard, feed its output to the model driver.
     Returns (harness_lines_by_id, mismatches, summary_dict, ok)."""
     args = [os.path.join(C.BIN, "fsm"), "-mode", mode, "-n", str(n), "-seed", str(seed), "-shard", str(shard)] + list(extra)
     try:
-        g = subprocess.run(args, stdout=subprocess.PIPE, stderr=subprocess.PIPE, timeout=3000)
+        g = subprocess.run(args, stdout=subprocess.PIPE, stderr=subprocess.PIPE, timeout=BATCH_TIMEOUT[0])
     except subprocess.TimeoutExpired:
-        return {}, [], {}, "harness timeout: %s" % " ".join(args)
+        return {}, [], {}, "harness timeout after %d s (a call into the library never returned?): %s" % (BATCH_TIMEOUT[0], " ".join(args))
     if g.returncode != 0:
         return {}, [], {}, "harness failed (%d): %s\n%s" % (g.returncode, " ".join(args), g.stderr.decode()[-1500:])
     m = subprocess.run([os.path.join(C.BIN, "fsm_model")], input=g.stdout, stdout=subprocess.PIPE, stderr=subprocess.PIPE)
@@ -141,7 +144,8 @@ def classify(run, line_of, mism, stats):
             run.violation("stream:%s:%s" % (kind, cid.split(":")[0]), payload,
                           "a subscriber's stream is not s0 :: changes (kind %s): %s" % (kind, detail[:200]))
         elif kind == "walk":
-            run.violation("walk:%s:%s" % (cid.split(":")[0], detail.split()[0]), payload,
+            a, b = detail.split()[0].split("=")[1].split(">")
+            run.violation("walk:%s:%s->%s" % (cid.split(":")[0], ST[int(a)], ST[int(b)]), payload,
                           "the observed state history is not a walk in the lifecycle graph: %s" % detail)
         elif kind == "isrunning":
             run.violation("isrunning:%s" % cid.split(":")[0], payload, "IsRunning() disagrees with GetState() == Running: %s" % detail)
@@ -157,8 +161,12 @@ def classify(run, line_of, mism, stats):
             other = [m for a in again for m in a[1] if " accept " not in m]
             if other:
                 classify(run, {cid: again[0][0]}, other, stats)
-            if rej:
-                at = re.search(r"at=(\S+)", detail)
+            at = re.search(r"at=(\S+)", detail)
+            if rej and at and at.group(1).startswith("0,7,"):
+                run.violation("isrunning:%s" % cid.split(":")[0], dict(payload, reruns=[a[0] for a in again]),
+                              "IsRunning() returned %s where no schedule of the model explaining the trace is in a state with that "
+                              "answer (IsRunning <> (state = Running)): %s" % (at.group(1)[-1], detail))
+            elif rej:
                 run.violation("corr-accept:%s:%s" % (cid.split(":")[0], at.group(1) if at else "?"),
                               dict(payload, theorem="correspondence B: runner model (FsmRunners.v) does not accept the implementation's trace",
                                    reruns=[a[0] for a in again]),
@@ -192,6 +200,7 @@ def run(run):
         run.violation("build-ocaml", {"log": log[-3000:]}, "model driver does not build (model broken by the regenerated table?)", True)
         return
     quick = run.tier == "quick"
+    BATCH_TIMEOUT[0] = 100 if quick else 1500
     shards = 4 if quick else max(4, C.NPROC // 2)
     plan = [("raw", 500 if quick else 5000), ("composite", 250 if quick else 3000),
             ("http", 28 if quick else 450), ("cluster", 14 if quick else 260)]
